@@ -311,7 +311,7 @@ PROPS["C16"] = {
 PROPS["C13"] = {
     "pkg": "c13",
     "technique": "metamorphic property-based testing: the same generated history replayed with fresh and with reused-and-scribbled caller buffers must produce identical emissions (thorough: also under the race detector)",
-    "level_text": "For each of 12 subjects (NACK responder with/without RTX, FlexFEC, pacing interceptor, GCC leaky-bucket pacer, packet dumper sender/receiver, stats, jitter-buffer "
+    "level_text": "For each of 14 subjects (NACK responder with/without RTX, FlexFEC, pacing interceptor, GCC leaky-bucket pacer, packet dumper sender/receiver with a binary and with a slow text formatter and a payload filter, stats, jitter-buffer "
                   "interceptor, TWCC sender, rtpfb) a generated packet history is run twice: once allocating per call, once reusing one header object, payload slice and read buffer that are "
                   "overwritten the moment each call returns; retransmissions, FEC, paced packets, dump bytes, reports and statistics must be identical, and the payload handed to Write unchanged. Exploration.",
     "level_note": "trusts: the sinks' deep copies taken at emission time; values that depend on the wall clock or on a random sequencer (RTX sequence numbers, departure and arrival stamps) are masked; "
